@@ -362,6 +362,34 @@ pub fn run(tier: Tier) -> i32 {
     });
     rep.absorb("quotes", st);
 
+    // values keep their precision when they are stored (variables, loop parameters, reuse locals) and used again
+    let stored: Vec<(&str, &str, f64)> = vec![
+        ("var", r#"<var x="{{1/3}}"/><rect id="p" wh="{{$x * 3000}}"/>"#, 1000.),
+        ("var-small", r#"<var x="{{1/30000}}"/><rect id="p" wh="{{$x * 30000}}"/>"#, 1.),
+        ("reuse-local", r##"<specs><rect id="t" wh="{{$x * 3000}}"/></specs><reuse id="p" href="#t" x="{{1/3}}"/>"##, 1000.),
+        ("group-local", r#"<g x="{{1/3}}"><rect id="p" wh="{{$x * 3000}}"/></g>"#, 1000.),
+        ("loop-step", r#"<loop count="1" loop-var="i" start="{{1/3}}"><rect id="p" wh="{{$i * 3000}}"/></loop>"#, 1000.),
+        ("direct-control", r#"<rect id="p" wh="{{(1/3) * 3000}}"/>"#, 1000.),
+    ];
+    let st = run_space(stored.len(), |i| {
+        let (name, body, want) = stored[i];
+        let doc = format!("<svg>{body}</svg>");
+        let out = run_str(&doc, &Cfg::plain());
+        let got = match &out {
+            Outcome::Ok(o) => crate::xmlref::parse_tree(o, crate::xmlref::Mode::Document).ok().and_then(|t| crate::xmlref::root(&t).and_then(|r| r.find_id("p").and_then(|e| e.attr("width").and_then(|w| w.parse::<f64>().ok())))),
+            _ => None,
+        };
+        let ok = got.map(|g| (g - want).abs() <= 0.0011 + 1e-5 * want).unwrap_or(false);
+        CaseResult {
+            case_hash: hash64(&doc),
+            nontrivial: ok,
+            outcome_hash: hash64(&format!("{out:?}")),
+            executions: 1,
+            violation: if ok { None } else { Some(Violation { clause: "stored-value-loses-precision".into(), signature: format!("C14/stored-values/{name}"), case: json!({"leg": "stored", "input": doc}), detail: format!("{doc}\nexpected width {want}, observed {got:?} ({})", clip(&out.brief(), 200)) }) },
+        }
+    });
+    rep.absorb("stored-values", st);
+
     // malformed / token strings
     let alphabet: &[&str] = &["1", "2.5", "(", ")", "+", "-", "*", "/", "%", ",", "lt", "and", "abs", "max", "nosuch", "$a", "$undef"];
     let maxlen = tier.pick(4, 5);
